@@ -40,7 +40,7 @@ quantifier-free and takes milliseconds.
   read_row_group_file; writer.write      partition_columns block has a record per partition column, write() passes partition_on
   util.get_file_scheme                   get_file_scheme.* : 'hive' when every level is name=text (non-empty both), only if every level has an interior '=',
                                          NOT only if the keys agree between paths (refuted-known); 'drill' / 'flat' / 'empty' cases
-  util.analyse_paths                     analyse_paths.out_of_reach (UNKNOWN, see check())
+  util.analyse_paths, ParquetFile.__init__ (root), basepath / row_group_filename: contracts/c14_paths.py (props/_analyse.py)
 Native replays of every refutation and of the ASSUMED metadata table: tools/c08native.py.  Findings: contracts/findings.jsonl (C08-P-*).
 """
 import ast
@@ -3459,12 +3459,7 @@ def check(ctx, timeout):
             [("core.py", "read_row_group")])
     fam("ParquetFile.call_sites", lambda: call_site_obligations(ctx, mod("api.py")[1]),
         [("api.py", "ParquetFile." + n) for n in ("_read_partitions", "__init__", "to_pandas", "read_row_group_file")])
-    r = Results()
-    r.add("analyse_paths.out_of_reach", UNKNOWN, None, 0.0, "engine",
-          "util.analyse_paths is NOT under contract: root=False needs the nested zip/enumerate/break loop as one inductive invariant over lists of "
-          "piece lists (longest common directory prefix), root given needs list-slice equality p[:l] == basepath and '/'.join of a symbolic "
-          "slice; it is not on the write/read path of a dataset with _metadata (file_path comes from the footer) - bounded layer only")
-    out.append(r)
+    # util.analyse_paths is under contract in contracts/c14_paths.py (wired into C08 and C14 through props/_analyse.py)
     return out
 
 
